@@ -297,6 +297,8 @@ impl Network {
 
         self.io_interface
             .send_interface_event(InterfaceEvent::PeerConnected(peer_index));
+        // release the peers lock before taking configs and blockchain (lock order : configs -> blockchain -> peers)
+        drop(peers);
         // start block syncing here
         self.request_blockchain_from_peer(peer_index, blockchain_lock.clone())
             .await;
